@@ -105,6 +105,16 @@ func ensureIntrinsics(pkg *types.Package) {
 		sig := types.NewSignatureType(nil, nil, []*types.TypeParam{tp}, types.NewTuple(v("c", boolT), v("a", tp), v("b", tp)), types.NewTuple(v("", tp)), false)
 		sc.Insert(types.NewFunc(token.NoPos, pkg, "ite", sig))
 	}
+	// first[A,B](a A, b B) A, second[A,B](a A, b B) B: projections of two-result calls f(g())
+	for idx, n := range []string{"first", "second"} {
+		a, b := mkTP("A"), mkTP("B")
+		res := a
+		if idx == 1 {
+			res = b
+		}
+		sig := types.NewSignatureType(nil, nil, []*types.TypeParam{a, b}, types.NewTuple(v("a", a), v("b", b)), types.NewTuple(v("", res)), false)
+		sc.Insert(types.NewFunc(token.NoPos, pkg, n, sig))
+	}
 	// same[T](a, b T) bool: identical values (floats compared bitwise-structurally, so NaN is same as NaN)
 	{
 		tp := mkTP("T")
@@ -394,6 +404,12 @@ func (e *SpecEnv) ident(n *ast.Ident) Val {
 			if a, ok := e.frame.allocByPos[o.Pos()]; ok {
 				return e.readCell(a)
 			}
+			// variable captured from the enclosing function (free variable of a closure)
+			for k, fv := range e.frame.fn.FreeVars {
+				if fv.Name() == o.Name() && fv.Pos() == o.Pos() && k < len(e.frame.bindings) {
+					return e.ex.load(e.frame, e.state(), e.frame.bindings[k], elemOfPtr(fv.Type()))
+				}
+			}
 			// parameter without spill cell?
 			if v, ok := e.entry[o]; ok {
 				return v
@@ -567,6 +583,24 @@ func (e *SpecEnv) call(n *ast.CallExpr) Val {
 			targs = []types.Type{tv.Type}
 		}
 	}
+	// call of a function value (variable / field / result of function type)
+	if tv, ok := e.info.Types[fun]; ok && !tv.IsType() {
+		if _, isSig := tv.Type.Underlying().(*types.Signature); isSig {
+			isFuncObj := false
+			switch f := fun.(type) {
+			case *ast.Ident:
+				_, isFuncObj = e.info.Uses[f].(*types.Func)
+				if _, b := e.info.Uses[f].(*types.Builtin); b {
+					isFuncObj = true
+				}
+			case *ast.SelectorExpr:
+				_, isFuncObj = e.info.Uses[f.Sel].(*types.Func)
+			}
+			if !isFuncObj {
+				return e.callFuncValue(n, fun, tv.Type.Underlying().(*types.Signature))
+			}
+		}
+	}
 	switch f := fun.(type) {
 	case *ast.Ident:
 		obj := e.info.Uses[f]
@@ -693,6 +727,22 @@ func (e *SpecEnv) intrinsic(name string, n *ast.CallExpr, targs []types.Type) Va
 	case "ite":
 		c := e.eval(n.Args[0]).(*Term)
 		return iteVal(c, e.eval(n.Args[1]), e.eval(n.Args[2]))
+	case "first", "second":
+		var parts []Val
+		if len(n.Args) == 1 {
+			if t, ok := e.eval(n.Args[0]).(*Agg); ok {
+				parts = t.F
+			}
+		} else if len(n.Args) == 2 {
+			parts = []Val{e.eval(n.Args[0]), e.eval(n.Args[1])}
+		}
+		if len(parts) != 2 {
+			e.fail("%s expects a two-result call", name)
+		}
+		if name == "first" {
+			return parts[0]
+		}
+		return parts[1]
 	case "same":
 		a, b := e.eval(n.Args[0]), e.eval(n.Args[1])
 		a, b = e.coerce(a, b)
@@ -894,4 +944,71 @@ func wrapVals(r []Val) Val {
 		return r[0]
 	}
 	return &Agg{F: r}
+}
+
+
+// callFuncValue evaluates a call through a function value inside a specification: known closures
+// are unfolded (also through an ite-tree of closure ids); otherwise the call is an uninterpreted
+// function of the function value and its arguments (the same symbol the code's assume_pure uses).
+func (e *SpecEnv) callFuncValue(n *ast.CallExpr, fun ast.Expr, sig *types.Signature) Val {
+	fv := e.eval(fun)
+	var args []Val
+	for _, a := range n.Args {
+		args = append(args, e.eval(a))
+	}
+	run := func(f *FuncVal) []Val {
+		return e.ex.inlineCall(nil, e.state().clone(), f.Fn, args, f.Bindings)
+	}
+	switch f := fv.(type) {
+	case *FuncVal:
+		return wrapVals(run(f))
+	case *Term:
+		ids := map[int64]bool{}
+		if fnLeaves(f, ids) && len(ids) > 0 && len(ids) <= 16 {
+			var result []Val
+			first := true
+			for id := range ids {
+				c := closureByID[int(id)]
+				if c == nil {
+					result = nil
+					break
+				}
+				r := run(c)
+				if first {
+					result, first = r, false
+				} else {
+					for k := range result {
+						result[k] = iteVal(Eq(f, FnPtr(int(id))), r[k], result[k])
+					}
+				}
+			}
+			if result != nil {
+				return wrapVals(result)
+			}
+		}
+		txt := e.ex.prog.nodeTextOf(fun)
+		flat := append([]*Term{f}, flatAll(args)...)
+		var rets []Val
+		for i := 0; i < sig.Results().Len(); i++ {
+			rets = append(rets, ufVal(fmt.Sprintf("fv@%s.%d", txt, i), e.resolve(sig.Results().At(i).Type()), flat...))
+		}
+		return wrapVals(rets)
+	}
+	e.fail("call through unsupported function value")
+	return nil
+}
+
+// fnLeaves collects fnp ids at the leaves of an ite-tree (null leaves are skipped).
+func fnLeaves(t *Term, out map[int64]bool) bool {
+	switch t.Op {
+	case "fnp":
+		n, _ := t.Args[0].IsInt()
+		out[n] = true
+		return true
+	case "null":
+		return true
+	case "ite":
+		return fnLeaves(t.Args[1], out) && fnLeaves(t.Args[2], out)
+	}
+	return false
 }
